@@ -685,6 +685,11 @@ class Models:
                 return mf
             ex.unsupported(s, f"loop #{ordinal} over symbolic sequence needs an invariant in the sidecar")
         a = st.ghost.get("args")
+        # soundness guard: a local that exists before the loop and is re-assigned in its body is loop-carried state;
+        # unless the invariant carries (havocs) it, the arbitrary iteration would start from its pre-loop value
+        stale = sorted(n for n in self.names_assigned_in(s.body) if n in st.env and n not in spec.carried and n not in {x.id for x in ast.walk(s.target) if isinstance(x, ast.Name)})
+        if stale:
+            ex.unsupported(s, f"loop #{ordinal} re-assigns {', '.join(stale)}: loop-carried state that invariant {spec.name} does not cover (contract needs updating)")
         if isinstance(seq, SOpaque) and seq.sort == "PatternList":
             seq = OpaquePatternList(seq)
         if isinstance(seq, SSeq):
@@ -867,6 +872,46 @@ class Models:
         if hasattr(seq, "__pyvc_elem__"):
             return seq.__pyvc_elem__(k)
         raise Unsupported("seq_elem")
+
+    @staticmethod
+    def names_assigned_in(body):
+        """Local names bound by the statements of a block (not descending into nested scopes / comprehensions)."""
+        out = set()
+
+        def targets(t):
+            if isinstance(t, ast.Name):
+                out.add(t.id)
+            elif isinstance(t, (ast.Tuple, ast.List)):
+                for e in t.elts:
+                    targets(e)
+            elif isinstance(t, ast.Starred):
+                targets(t.value)
+
+        def visit(n):
+            if isinstance(n, (ast.FunctionDef, ast.AsyncFunctionDef, ast.Lambda, ast.ClassDef, ast.ListComp, ast.SetComp, ast.DictComp, ast.GeneratorExp)):
+                return
+            if isinstance(n, ast.Assign):
+                for t in n.targets:
+                    targets(t)
+            elif isinstance(n, (ast.AugAssign, ast.AnnAssign)):
+                if isinstance(n, ast.AugAssign) or n.value is not None:
+                    targets(n.target)
+            elif isinstance(n, (ast.For, ast.AsyncFor)):
+                targets(n.target)
+            elif isinstance(n, (ast.With, ast.AsyncWith)):
+                for it in n.items:
+                    if it.optional_vars is not None:
+                        targets(it.optional_vars)
+            elif isinstance(n, ast.NamedExpr):
+                targets(n.target)
+            elif isinstance(n, ast.ExceptHandler) and n.name:
+                out.add(n.name)
+            for c in ast.iter_child_nodes(n):
+                visit(c)
+
+        for st_ in body:
+            visit(st_)
+        return out
 
     def loop_ordinal(self, ex, s, st):
         fr = st.env["__func__"]
@@ -1739,6 +1784,21 @@ class Models:
             return [Val(list(zip(*[self.iter_concrete(ex, x, node) for x in args])), st)]
 
         M[zip] = m_zip
+
+        def m_range(ex, args, kwargs, st, node):
+            if kwargs or not V.contains_sym(args):
+                try:
+                    return [Val(range(*args), st)]
+                except Exception as e:
+                    return [ex.raise_(type(e), st)]
+            if len(args) > 2:
+                ex.unsupported(node, "range with a step over symbolic bounds")
+            from .abstractions import SymRange
+
+            lo, hi = (0, args[0]) if len(args) == 1 else args
+            return [Val(SymRange(lo, hi), st)]
+
+        M[range] = m_range
 
         def m_reversed(ex, args, kwargs, st, node):
             return [Val(list(reversed(self.iter_concrete(ex, args[0], node))), st)]
